@@ -23,6 +23,8 @@ def run(C, R):
         F = C.facts(cfg)
         E = C.engine(cfg)
         R.configs.append(cfg)
+        from common import futures_start_initial as _fsi
+        R.floor('C14.R0f future-construction-paths[%s]' % cfg, _fsi(C, R, cfg, ['sync::manual_reset_event::EventState'], 'C14.R0f'), 1)
         from common import constructor_state
         constructor_state(R, C.engine(cfg), C.facts(cfg), STATE, {'is_set': ('param', 'is_set'), 'waiters': 'empty-queue'}, 'C14.R0')
         from common import wrapper_discipline
